@@ -90,45 +90,50 @@ class PDFPage:
     @classmethod
     def create_pages(cls, document: PDFDocument) -> Iterator["PDFPage"]:
         def depth_first_search(
-            obj: Any,
-            parent: Dict[str, Any],
-            visited: Optional[Set[Any]] = None,
+            root: Any,
+            root_parent: Dict[str, Any],
         ) -> Iterator[Tuple[int, Dict[Any, Dict[Any, Any]]]]:
-            if isinstance(obj, int):
-                object_id = obj
-                object_properties = dict_value(document.getobj(object_id)).copy()
-            elif isinstance(obj, PDFObjRef):
-                object_id = obj.objid
-                object_properties = dict_value(obj).copy()
-            else:
-                # A page tree node has to be an indirect object; anything
-                # else (a number, a name, an inline dictionary...) is skipped.
-                log.warning("Ignoring page tree node that is not a reference: %r", obj)
-                return
+            # The tree is walked with an explicit stack: a page tree may be
+            # nested deeper than the interpreter's recursion limit.
+            # Avoid endless loops by keeping track of visited nodes
+            visited: Set[Any] = set()
+            stack: List[Tuple[Any, Dict[str, Any]]] = [(root, root_parent)]
+            while stack:
+                (obj, parent) = stack.pop()
+                if isinstance(obj, int):
+                    object_id = obj
+                    object_properties = dict_value(document.getobj(object_id)).copy()
+                elif isinstance(obj, PDFObjRef):
+                    object_id = obj.objid
+                    object_properties = dict_value(obj).copy()
+                else:
+                    # A page tree node has to be an indirect object; anything
+                    # else (a number, a name, an inline dictionary...) is skipped.
+                    log.warning(
+                        "Ignoring page tree node that is not a reference: %r", obj
+                    )
+                    continue
 
-            # Avoid recursion errors by keeping track of visited nodes
-            if visited is None:
-                visited = set()
-            if object_id in visited:
-                return
-            visited.add(object_id)
+                if object_id in visited:
+                    continue
+                visited.add(object_id)
 
-            for k, v in parent.items():
-                if k in cls.INHERITABLE_ATTRS and k not in object_properties:
-                    object_properties[k] = v
+                for k, v in parent.items():
+                    if k in cls.INHERITABLE_ATTRS and k not in object_properties:
+                        object_properties[k] = v
 
-            object_type = object_properties.get("Type")
-            if object_type is None and not settings.STRICT:  # See #64
-                object_type = object_properties.get("type")
+                object_type = object_properties.get("Type")
+                if object_type is None and not settings.STRICT:  # See #64
+                    object_type = object_properties.get("type")
 
-            if object_type is LITERAL_PAGES and "Kids" in object_properties:
-                log.debug("Pages: Kids=%r", object_properties["Kids"])
-                for child in list_value(object_properties["Kids"]):
-                    yield from depth_first_search(child, object_properties, visited)
+                if object_type is LITERAL_PAGES and "Kids" in object_properties:
+                    log.debug("Pages: Kids=%r", object_properties["Kids"])
+                    kids = list_value(object_properties["Kids"])
+                    stack.extend((child, object_properties) for child in reversed(kids))
 
-            elif object_type is LITERAL_PAGE:
-                log.debug("Page: %r", object_properties)
-                yield (object_id, object_properties)
+                elif object_type is LITERAL_PAGE:
+                    log.debug("Page: %r", object_properties)
+                    yield (object_id, object_properties)
 
         try:
             page_labels: Iterator[Optional[str]] = document.get_page_labels()
